@@ -5,6 +5,9 @@ import (
 	"errors"
 	"fmt"
 	"math/rand"
+	"runtime"
+	"strconv"
+	"strings"
 	"sync"
 	"sync/atomic"
 	"time"
@@ -21,6 +24,19 @@ type dev struct {
 	J       int    `json:"j,omitempty"`
 	Ok      *bool  `json:"ok,omitempty"`
 	Workers int    `json:"workers,omitempty"`
+	G       int    `json:"g,omitempty"` // Start/End: id of the goroutine (= worker) that runs the job; not read by the trace spec
+}
+
+// goid returns the id of the calling goroutine (from the first line of its stack trace).
+func goid() int {
+	var buf [64]byte
+	n := runtime.Stack(buf[:], false)
+	f := strings.Fields(string(buf[:n]))
+	if len(f) < 2 {
+		return 0
+	}
+	id, _ := strconv.Atoi(f[1])
+	return id
 }
 
 type drec struct {
@@ -51,7 +67,8 @@ type dscenario struct {
 	Jobs       []djob `json:"jobs"`
 	CloseEarly bool   `json:"close_early"`
 	CloseUs    int    `json:"close_us"`
-	PostSubmit bool   `json:"post_submit"` // one more Submit after Close returned
+	PostSubmit bool   `json:"post_submit"`  // one more Submit after Close returned
+	CloseOnJob int    `json:"close_on_job"` // directed close race: Close is called the moment this job's first run starts (0 = off)
 }
 
 func genDScenario(r *rand.Rand) dscenario {
@@ -66,6 +83,20 @@ func genDScenario(r *rand.Rand) dscenario {
 		s.CloseUs = []int{0, 20, 150, 600, 2000}[r.Intn(5)]
 	}
 	s.PostSubmit = r.Intn(2) == 0
+	if r.Intn(4) == 0 {
+		// directed at the window between a worker's dequeue and the first statement of the job: many instant jobs
+		// keep every worker cycling through dequeue -> run while Close() is called from another goroutine. The window
+		// has no harness-controllable step inside (runWorker calls job() right after queue.Wait() returns), so this
+		// only makes the schedule likely, it cannot force it.
+		s.Workers = 2 + r.Intn(2)
+		s.Jobs = nil
+		for i := 1; i <= 7; i++ {
+			s.Jobs = append(s.Jobs, djob{ID: i, Fails: r.Intn(2), Early: i <= 5})
+		}
+		s.CloseEarly = true
+		s.CloseUs = 0
+		s.CloseOnJob = 1 + r.Intn(4)
+	}
 	return s
 }
 
@@ -84,9 +115,19 @@ func runDScenario(sc dscenario) (out dresult) {
 	d := centrifuge.VerifWNewDissolver(sc.Workers)
 	attempts := make([]atomic.Int64, len(sc.Jobs)+2)
 	var succeeded atomic.Int64
+	closeNow := make(chan struct{})
+	var closeOnce sync.Once
 	mk := func(j djob) func() error {
 		return func() error {
-			rec.log(&dev{Ev: "Start", J: j.ID})
+			e := &dev{Ev: "Start", J: j.ID}
+			rec.log(e) // first statement of the job: its sequence number is the moment the run started
+			g := goid()
+			rec.mu.Lock()
+			e.G = g
+			rec.mu.Unlock()
+			if j.ID == sc.CloseOnJob {
+				closeOnce.Do(func() { close(closeNow) })
+			}
 			if j.RunUs > 0 {
 				time.Sleep(time.Duration(j.RunUs) * time.Microsecond)
 			}
@@ -130,7 +171,14 @@ func runDScenario(sc dscenario) (out dresult) {
 		cwg.Add(1)
 		go func() {
 			defer cwg.Done()
-			time.Sleep(time.Duration(sc.CloseUs) * time.Microsecond)
+			if sc.CloseOnJob > 0 {
+				select {
+				case <-closeNow:
+				case <-time.After(50 * time.Millisecond):
+				}
+			} else {
+				time.Sleep(time.Duration(sc.CloseUs) * time.Microsecond)
+			}
 			doClose()
 		}()
 	}
@@ -197,6 +245,12 @@ func dmonitor(sc dscenario, evs []*dev) (viol []wviol) {
 				add("dissolve:rerun-after-success", "job %d was run again after it had returned success", e.J)
 			}
 			if closeE != 0 {
+				// the clause "no job is executed after the queue is closed", as stated: Close() had RETURNED (its
+				// return was numbered before this job's first statement)
+				add("dissolve:job-started-after-close-returned",
+					"job %d started at event %d on worker goroutine %d, after Close() had returned at event %d: that worker had dequeued the job before Close took effect "+
+						"(Close empties the queue, so nothing can be dequeued afterwards) and called it after Close returned; events around: %s",
+					e.J, e.Seq, e.G, closeE, around(evs, closeE, e.Seq))
 				lateStarts++
 				if failedAfterClose[e.J] {
 					add("dissolve:run-after-close", "job %d failed after Close had returned and was run again (re-queued on a closed dissolver)", e.J)
@@ -220,6 +274,32 @@ func dmonitor(sc dscenario, evs []*dev) (viol []wviol) {
 		add("dissolve:run-after-close", "%d runs started after Close had returned; %d workers can hold at most %d dequeued jobs", lateStarts, sc.Workers, sc.Workers)
 	}
 	return viol
+}
+
+// around renders the events from just before Close returned up to the late start.
+func around(evs []*dev, from, to int) string {
+	lo := from - 4
+	if lo < 1 {
+		lo = 1
+	}
+	out := ""
+	for _, e := range evs {
+		if e.Seq < lo || e.Seq > to {
+			continue
+		}
+		out += fmt.Sprintf("[%d %s", e.Seq, e.Ev)
+		if e.J != 0 {
+			out += fmt.Sprintf(" j%d", e.J)
+		}
+		if e.Ok != nil {
+			out += fmt.Sprintf(" ok=%v", *e.Ok)
+		}
+		if e.G != 0 {
+			out += fmt.Sprintf(" g%d", e.G)
+		}
+		out += "] "
+	}
+	return out
 }
 
 type dissolveIn struct {
@@ -294,6 +374,9 @@ func dissolveRuns(in json.RawMessage, res *vh.Result) error {
 		}
 		if late {
 			res.Count("runs_with_start_after_close", 1)
+		}
+		if sc.CloseOnJob > 0 {
+			res.Count("directed_close_race_runs", 1)
 		}
 		if !sc.CloseEarly && !out.stuck {
 			res.Count("quiescence_checked", 1)
